@@ -14,6 +14,9 @@ CONSTANTS
   BIds = {"nob", "opt"}
   XKs = {""}
   Rich = FALSE
+  Edges = FALSE
+  KSps = {"lower"}
+  MKs = {"k"}
   Depth = 2
   Emit = FALSE
 INVARIANTS InvNoPanic InvCompleteness InvSoundness InvValues InvHistoryIndependent InvClassesDisjoint
